@@ -10,6 +10,7 @@
  *   flags  : 0..3                             (IMB_FLAG_SHANI_OFF | IMB_FLAG_GFNI_OFF, alloc_mb_mgr)
  *   cbmode : cb    callback installed, returns 1 outside the CORRUPT phase
  *            cb0   callback installed, returns 0 outside the CORRUPT phase (must not matter)
+ *            cbn   like cb, but registered with a NULL user argument
  *            nocb  no callback installed (the sets are ignored)
  *   set    : "-" or comma separated vector ids to corrupt; an id is a 0-based ordinal (count of
  *            START events seen before the vector's own) or <type>:<descr>
@@ -57,10 +58,12 @@ selected(const struct ctx *c)
         return c->cur_selected;
 }
 
+static struct ctx *g_ctx; /* cbmode cbn: the callback is registered with a NULL user argument (as in the README) */
+
 static int
 callback(void *arg, const IMB_SELF_TEST_CALLBACK_DATA *data)
 {
-        struct ctx *c = (struct ctx *) arg;
+        struct ctx *c = arg != NULL ? (struct ctx *) arg : g_ctx;
         int ret = c->others_ret;
 
         if (data == NULL || data->phase == NULL) {
@@ -236,7 +239,7 @@ main(int argc, char **argv)
                 if (sscanf(line, "%15s %u %15s %7999s", init, &flags, cbm, sets) != 4 ||
                     (strcmp(init, "sse") && strcmp(init, "avx2") && strcmp(init, "avx512") &&
                      strcmp(init, "auto")) ||
-                    flags > 3 || (strcmp(cbm, "cb") && strcmp(cbm, "cb0") && strcmp(cbm, "nocb"))) {
+                    flags > 3 || (strcmp(cbm, "cb") && strcmp(cbm, "cb0") && strcmp(cbm, "nocb") && strcmp(cbm, "cbn"))) {
                         printf("CASE %d BADLINE\nEND %d\n", n, n);
                         continue;
                 }
@@ -298,6 +301,10 @@ main(int argc, char **argv)
                         }
                         if (strcmp(cbm, "nocb") == 0) {
                                 if (imb_self_test_set_cb(m, NULL, NULL) != 0)
+                                        printf("SETCBFAIL %d\n", ph);
+                        } else if (strcmp(cbm, "cbn") == 0) {
+                                g_ctx = c;
+                                if (imb_self_test_set_cb(m, callback, NULL) != 0)
                                         printf("SETCBFAIL %d\n", ph);
                         } else if (imb_self_test_set_cb(m, callback, c) != 0) {
                                 printf("SETCBFAIL %d\n", ph);
